@@ -28,7 +28,10 @@ type edit struct {
 const simPkg = `// Package verifsim is added to a scratch copy by the maporder tool (never to the repository).
 package verifsim
 
-import "sort"
+import (
+	"reflect"
+	"sort"
+)
 
 type ordered interface {
 	~int | ~int8 | ~int16 | ~int32 | ~int64 | ~uint | ~uint8 | ~uint16 | ~uint32 | ~uint64 | ~uintptr | ~float32 | ~float64 | ~string
@@ -45,6 +48,27 @@ func Keys[K ordered, V any](site string, m map[K]V) []K {
 		keys = append(keys, k)
 	}
 	sort.Slice(keys, func(i, j int) bool { return keys[i] < keys[j] })
+	if f := Perm; f != nil && len(keys) > 1 {
+		p := f(site, len(keys))
+		if p == nil {
+			return keys
+		}
+		out := make([]K, len(keys))
+		for i, j := range p {
+			out[i] = keys[j]
+		}
+		return out
+	}
+	return keys
+}
+
+// KeysPtr is Keys for pointer-keyed maps: the keys are ordered by address and then permuted.
+func KeysPtr[K comparable, V any](site string, m map[K]V) []K {
+	keys := make([]K, 0, len(m))
+	for k := range m {
+		keys = append(keys, k)
+	}
+	sort.Slice(keys, func(i, j int) bool { return reflect.ValueOf(keys[i]).Pointer() < reflect.ValueOf(keys[j]).Pointer() })
 	if f := Perm; f != nil && len(keys) > 1 {
 		p := f(site, len(keys))
 		if p == nil {
@@ -137,10 +161,16 @@ func main() {
 					if !ok {
 						return true
 					}
+					keysFunc := "Keys"
 					if b, ok := mt.Key().Underlying().(*types.Basic); !ok || b.Info()&(types.IsOrdered) == 0 {
-						fmt.Fprintf(os.Stderr, "maporder: %s: key type %s not orderable, left alone\n", fset.Position(rs.Pos()), mt.Key())
-						skipped++
-						return true
+						if _, isPtr := mt.Key().Underlying().(*types.Pointer); isPtr {
+							// pointer keys: ordered by address (allocation order in practice), then permuted
+							keysFunc = "KeysPtr"
+						} else {
+							fmt.Fprintf(os.Stderr, "maporder: %s: key type %s not orderable, left alone\n", fset.Position(rs.Pos()), mt.Key())
+							skipped++
+							return true
+						}
 					}
 					n++
 					total++
@@ -167,7 +197,7 @@ func main() {
 					if rs.Tok == token.DEFINE && keyText != "" && keyText != "_" {
 						loopKey = keyText
 					}
-					hdr := fmt.Sprintf("for _, %s := range verifsim.Keys(%q, %s) ", loopKey, site, mv)
+					hdr := fmt.Sprintf("for _, %s := range verifsim.%s(%q, %s) ", loopKey, keysFunc, site, mv)
 					switch {
 					case valText != "" && valText != "_" && rs.Tok == token.DEFINE:
 						pre = fmt.Sprintf(" %s, %s := %s[%s]; if !%s { continue };", valText, okv, mv, loopKey, okv)
